@@ -2,6 +2,7 @@
 from __future__ import annotations
 
 import ast
+import re
 from typing import Any, Dict, List, Optional, Set, Tuple
 
 from .. import linexpr as lx
@@ -49,8 +50,13 @@ def rule_classify(rep: Report, repo: Repo) -> None:
         raise AnalysisError('run(): the try around the engine dispatch was not found')
     t = tries[0]
     seq = [handler_types(x)[0] for x in t.handlers]
-    rep.check(seq == ['FlipJumpRuntimeMemoryException', 'FlipJumpException', 'KeyboardInterrupt', 'Exception'],
-              'C18.CLASSIFY', 'run:handler-order', str(seq), site)
+    # what matters is which clause an exception of each kind REACHES: the first clause whose class is the exception's class or a base of
+    # it (python's rule) - disjoint clauses may stand in any order
+    want_reach = {'FlipJumpRuntimeMemoryException': 'FlipJumpRuntimeMemoryException', 'FlipJumpException': 'FlipJumpException',
+                  'IODeviceException': 'FlipJumpException', 'KeyboardInterrupt': 'KeyboardInterrupt', 'ValueError': 'Exception', 'KeyError': 'Exception'}
+    reach = {k: next((c_ for c_ in seq if is_subclass(h, k, c_)), None) for k in want_reach}
+    rep.check(reach == want_reach and sorted(seq) == sorted(['FlipJumpRuntimeMemoryException', 'FlipJumpException', 'KeyboardInterrupt', 'Exception']),
+              'C18.CLASSIFY', 'run:handler-order', f'{seq}: ' + str({k: v for k, v in reach.items() if want_reach[k] != v} or 'every kind reaches its clause'), site)
     # hierarchy facts the order relies on
     rep.check(is_subclass(h, 'FlipJumpRuntimeMemoryException', 'FlipJumpException')
               and is_subclass(h, 'IODeviceException', 'FlipJumpException')
@@ -474,13 +480,31 @@ def rule_kept_ring(rep: Report, cu: CUnit, repo: Repo) -> None:
              'the Python side reads, the attribute is cleared at the start of every run, and its getter returns it', 3)
     attr = attrs[0]
     body = cu.body('Memory_run')
-    stores = [cu.src_of(n['inner'][1]) for n in walk(body) if is_assign(n) and cu.src_of(n['inner'][0]) == f'self->{attr}']
+    from ..cfacts import local_defs as _ld, strip as _strip
+    defs_ = _ld(cu, 'Memory_run')
+
+    def through_local(e: Dict[str, Any]) -> str:
+        e0 = _strip(e)
+        if e0.get('kind') == 'DeclRefExpr':
+            ds = [d for d in defs_.get(e0['referencedDecl']['name'], []) if d is not None]
+            if len(ds) == 1:
+                return cu.src_of(ds[0])             # a local that names the freshly built list reads as the call that built it
+        return cu.src_of(e)
+    stores = [through_local(n['inner'][1]) for n in walk(body) if is_assign(n) and cu.src_of(n['inner'][0]) == f'self->{attr}'
+              and cu.src_of(n['inner'][1]) not in ('NULL', '0')]
     rep.check(len(stores) == 1 and stores[0].startswith('last_ops_ring_to_list(last_ops_ring, last_ops_length, loop_ring_writes'), 'C18.KEPT-RING',
               f'Memory_run:self->{attr}', str(stores), cu.site(cu.func('Memory_run')), expected='the list built from the ring and its write count')
     cleared = [cu.line_of(n) for n in walk(body) if n.get('kind') == 'CallExpr' and False]
     src = cu.src_of(body)
     first_loop = min([src.find(x) for x in ('run_measured_loop(', 'run_flat_loop(', 'run_generic_loop(') if src.find(x) >= 0] or [-1])
-    clr = src.find(f'Py_CLEAR(self->{attr})')
+    # cleared directly, or through a unit helper whose body clears the member
+    raw_unit = cu.text
+    helpers_ = [f for f in cu.funcs if f != 'Memory_run' and re.search(r'\b' + re.escape(f) + r'\s*\([^)]*\)\s*\{[^}]*Py_CLEAR\(\s*\w+->' + re.escape(attr) + r'\s*\)', raw_unit)]
+    raw_run = raw_unit[raw_unit.find('Memory_run('):]
+    src = raw_run[:raw_run.find('\n}\n') if raw_run.find('\n}\n') > 0 else len(raw_run)]          # the text of the function as written (macros unexpanded)
+    first_loop = min([src.find(x) for x in ('run_measured_loop(', 'run_flat_loop(', 'run_generic_loop(') if src.find(x) >= 0] or [-1])
+    cands = [src.find(f'Py_CLEAR(self->{attr})')] + [src.find(f'{h}(') for h in helpers_]
+    clr = min([c_ for c_ in cands if c_ >= 0] or [-1])
     rep.check(0 <= clr < first_loop, 'C18.KEPT-RING', f'Memory_run:{attr} cleared first', f'Py_CLEAR at offset {clr}, first loop call at {first_loop}',
               cu.site(cu.func('Memory_run')), expected='cleared before any loop runs (no stale list from an earlier run)')
     getters = [f for f in cu.funcs if f.startswith('Memory_get_') and f'self->{attr}' in cu.src_of(cu.body(f))]
